@@ -7,6 +7,7 @@ from .refmodel import expr as X
 from .refmodel.jets import Jet
 
 LABELS_INI = [('A', 'B'), ('Si', 'O'), ('O', 'O'), ('U4+', 'Mg_c'), ('B', 'A'), ('C', 'D'), ('O_core', 'O_shel'), ('Uranium4', 'O2minus_')]
+LAB3_PREFIX = [[('Li', 'O'), ('Li+', 'O'), ('Li', 'Li+')], [('O', 'O*'), ('O*', 'O*'), ('O', 'O')]]
 LABELS_API = LABELS_INI + [('core-O', 'O2-')]
 ROUTES = ['cls', 'wp', 'cfg', 'potable']
 
@@ -100,6 +101,10 @@ def pair_cases(tier, routes=ROUTES, mult4=False, api_labels=True, sweep_pot='pol
                 for route in routes:
                     out.append(dict(route=route, cutoff=cutoff, nr=nr,
                                     pots=[[lab3[j][0], lab3[j][1], tr[p]] for j, p in enumerate(perm)]))
+                    # labels one of which is a prefix of another, the longer one continuing with a character that sorts below '-' ('+', '*'):
+                    # sorting the joined labels 'Li+-O' / 'Li-O' and sorting the species tuples give different orders
+                    for l3 in LAB3_PREFIX:
+                        out.append(dict(route=route, cutoff=cutoff, nr=nr, pots=[[l3[j][0], l3[j][1], tr[p]] for j, p in enumerate(perm)]))
     # (4) grid sweep: one cheap curved potential on the whole (cutoff, nr) lattice (quick: class route; thorough: every route)
     for i, (cutoff, nr) in enumerate(grid_lattice(tier, mult4)):
         for route in (routes if tier != 'quick' else [routes[i % len(routes)]]):
